@@ -5,12 +5,13 @@ Import ListNotations.
 Open Scope string_scope.
 Open Scope Z_scope.
 
-(* Accepted by `check_func` => for every oracle that sees memory only through its contents, every initial state that
+(* Accepted by `check_func` => for every oracle that sees memory only through its contents and treats operands annotated
+   read-only uniformly (`ro_uniform`: needed only for rule R4, the redirected invoke operands), every initial state that
    respects the pointer certificate and every fuel: unless the ORIGINAL run is stuck (undefined variable, ptr + ptr,
    malformed instruction), both runs end the same way (final terminator / halt inside a block / out of fuel) in states
    with equal variables, pointwise equal memory, equal returndata version and world. *)
 Theorem copyfwd_check_sound_stmt : forall O C E f f',
-  oracle_ext O -> check_func C E f f' = true ->
+  oracle_ext O -> ro_uniform O -> check_func C E f f' = true ->
   forall s0 s0', cinv C s0 -> seq2 s0 s0' -> forall fuel, rel_res (run O f fuel 0 s0) (run O f' fuel 0 s0').
 Proof. exact copyfwd_check_sound. Qed.
 Print Assumptions copyfwd_check_sound_stmt.
@@ -23,9 +24,13 @@ Theorem facts_invariant : forall O C i s s' F,
   cinv C s -> allholds O s F -> exec O i s = Next s' -> allholds O s' (step_facts C F i).
 Proof. exact step_facts_sound. Qed.
 Theorem justified_rewrite_sound : forall O C F i i' s s' s1,
-  cinv C s -> allholds O s F -> seq2 s s' -> justified C F i i' = true -> exec O i s = Next s1 ->
+  cinv C s -> allholds O s F -> seq2 s s' -> i_op i = "mcopy" -> justified C F i i' = true -> exec O i s = Next s1 ->
   exists s1', exec O i' s' = Next s1' /\ seq2 s1 s1'.
-Proof. exact justified_sound. Qed.
+Proof. exact justified_sound_mcopy. Qed.
+Theorem readonly_invoke_redirect_sound : forall O C F i i' s s',
+  oracle_ext O -> ro_uniform O -> cinv C s -> allholds O s F -> seq2 s s' -> i_op i = "invoke" -> justified C F i i' = true ->
+  out_rel (exec O i s) (exec O i' s').
+Proof. exact justified_sound_invoke. Qed.
 Theorem disjoint_is_sound : forall a b va na vb nb, disjoint a b = true -> covers a va na -> covers b vb nb ->
   forall x y, 0 <= x < na -> 0 <= y < nb -> ~ (fst va = fst vb /\ snd va + x = snd vb + y).
 Proof. exact disjoint_sound. Qed.
@@ -34,41 +39,42 @@ Print Assumptions facts_invariant.
 (* ---- non-vacuity: an oracle that satisfies oracle_ext, an initial state that satisfies cinv *)
 Definition O0 : oracle := mkO (fun _ _ _ => None) (fun _ _ v k => snd v + k) (fun i k => i * 1000 + k) (fun _ _ _ => None).
 Lemma O0_ext : oracle_ext O0. Proof. split; intros; cbn; auto. Qed.
+Lemma O0_ro : ro_uniform O0. Proof. intros i i' a a' s s' _ _ _ _. cbn. exact I. Qed.
 Definition s_init : state := mkS (fun _ => None) (fun _ _ => 0) 0 0 0%N.
 Lemma s_init_cinv C : cinv C s_init. Proof. intros x r k v _ H. discriminate. Qed.
 
 (* %1 = alloca; %2 = alloca; calldatacopy %1 <- cd[4..36); mcopy %2 <- %1 (32)   ~>   calldatacopy %2 <- cd[4..36) *)
 Definition ex_f : func :=
-  [[mkI "alloca" [OLit 32] [1%N] false false 1; mkI "alloca" [OLit 32] [2%N] false false 2;
-    mkI "calldatacopy" [OLit 32; OLit 4; OVar 1%N] [] true false 0;
-    mkI "mcopy" [OLit 32; OVar 1%N; OVar 2%N] [] true false 0;
-    mkI "stop" [] [] false false 0]].
+  [[mkI "alloca" [OLit 32] [1%N] false false 1 []; mkI "alloca" [OLit 32] [2%N] false false 2 [];
+    mkI "calldatacopy" [OLit 32; OLit 4; OVar 1%N] [] true false 0 [];
+    mkI "mcopy" [OLit 32; OVar 1%N; OVar 2%N] [] true false 0 [];
+    mkI "stop" [] [] false false 0 []]].
 Definition ex_g : func :=
-  [[mkI "alloca" [OLit 32] [1%N] false false 1; mkI "alloca" [OLit 32] [2%N] false false 2;
-    mkI "calldatacopy" [OLit 32; OLit 4; OVar 1%N] [] true false 0;
-    mkI "calldatacopy" [OLit 32; OLit 4; OVar 2%N] [] true false 0;
-    mkI "stop" [] [] false false 0]].
+  [[mkI "alloca" [OLit 32] [1%N] false false 1 []; mkI "alloca" [OLit 32] [2%N] false false 2 [];
+    mkI "calldatacopy" [OLit 32; OLit 4; OVar 1%N] [] true false 0 [];
+    mkI "calldatacopy" [OLit 32; OLit 4; OVar 2%N] [] true false 0 [];
+    mkI "stop" [] [] false false 0 []]].
 Definition ex_C : certs := [(1%N, (Some 1, Some 0)); (2%N, (Some 2, Some 0))].
 Example ex_accepted : check_func ex_C [[]] ex_f ex_g = true. Proof. vm_compute. reflexivity. Qed.
 Example ex_runs : forall fuel, rel_res (run O0 ex_f fuel 0 s_init) (run O0 ex_g fuel 0 s_init).
-Proof. intros. apply copyfwd_check_sound with (C := ex_C) (E := [[]]); auto using O0_ext, s_init_cinv, seq2_refl, ex_accepted. Qed.
+Proof. intros. apply copyfwd_check_sound with (C := ex_C) (E := [[]]); auto using O0_ext, O0_ro, s_init_cinv, seq2_refl, ex_accepted. Qed.
 (* ... and the original run is not stuck: the theorem says something *)
 Example ex_not_stuck : match run O0 ex_f 2 0 s_init with Done s => smem s (Some 2) 5 = 9 | _ => False end.
 Proof. vm_compute. reflexivity. Qed.
 
 (* the same rewrite with a store to the source between the two copies is rejected *)
 Definition ex_f_bad : func :=
-  [[mkI "alloca" [OLit 32] [1%N] false false 1; mkI "alloca" [OLit 32] [2%N] false false 2;
-    mkI "calldatacopy" [OLit 32; OLit 4; OVar 1%N] [] true false 0;
-    mkI "mstore" [OLit 7; OVar 1%N] [] true false 0;
-    mkI "mcopy" [OLit 32; OVar 1%N; OVar 2%N] [] true false 0;
-    mkI "stop" [] [] false false 0]].
+  [[mkI "alloca" [OLit 32] [1%N] false false 1 []; mkI "alloca" [OLit 32] [2%N] false false 2 [];
+    mkI "calldatacopy" [OLit 32; OLit 4; OVar 1%N] [] true false 0 [];
+    mkI "mstore" [OLit 7; OVar 1%N] [] true false 0 [];
+    mkI "mcopy" [OLit 32; OVar 1%N; OVar 2%N] [] true false 0 [];
+    mkI "stop" [] [] false false 0 []]].
 Definition ex_g_bad : func :=
-  [[mkI "alloca" [OLit 32] [1%N] false false 1; mkI "alloca" [OLit 32] [2%N] false false 2;
-    mkI "calldatacopy" [OLit 32; OLit 4; OVar 1%N] [] true false 0;
-    mkI "mstore" [OLit 7; OVar 1%N] [] true false 0;
-    mkI "calldatacopy" [OLit 32; OLit 4; OVar 2%N] [] true false 0;
-    mkI "stop" [] [] false false 0]].
+  [[mkI "alloca" [OLit 32] [1%N] false false 1 []; mkI "alloca" [OLit 32] [2%N] false false 2 [];
+    mkI "calldatacopy" [OLit 32; OLit 4; OVar 1%N] [] true false 0 [];
+    mkI "mstore" [OLit 7; OVar 1%N] [] true false 0 [];
+    mkI "calldatacopy" [OLit 32; OLit 4; OVar 2%N] [] true false 0 [];
+    mkI "stop" [] [] false false 0 []]].
 Example ex_rejected : check_func ex_C [[]] ex_f_bad ex_g_bad = false. Proof. vm_compute. reflexivity. Qed.
 (* and rightly so: the two runs differ *)
 Example ex_bad_differs :
@@ -79,8 +85,27 @@ Example ex_bad_differs :
 Proof. vm_compute. split; reflexivity. Qed.
 (* an offset that is off by 32 is rejected as well *)
 Definition ex_g_off : func :=
-  [[mkI "alloca" [OLit 32] [1%N] false false 1; mkI "alloca" [OLit 32] [2%N] false false 2;
-    mkI "calldatacopy" [OLit 32; OLit 4; OVar 1%N] [] true false 0;
-    mkI "calldatacopy" [OLit 32; OLit 36; OVar 2%N] [] true false 0;
-    mkI "stop" [] [] false false 0]].
+  [[mkI "alloca" [OLit 32] [1%N] false false 1 []; mkI "alloca" [OLit 32] [2%N] false false 2 [];
+    mkI "calldatacopy" [OLit 32; OLit 4; OVar 1%N] [] true false 0 [];
+    mkI "calldatacopy" [OLit 32; OLit 36; OVar 2%N] [] true false 0 [];
+    mkI "stop" [] [] false false 0 []]].
 Example ex_rejected_off : check_func ex_C [[]] ex_f ex_g_off = false. Proof. vm_compute. reflexivity. Qed.
+
+(* R4: the staged argument of a read-only parameter is redirected to the source of the staging copy (the copy stays: its
+   removal is the separate dead-copy step checked by the tie); rejected when the source is written in between, or when the
+   operand is not annotated read-only *)
+Definition inv_f (ann : list (option operand)) (mid : list inst) (arg : operand) : func :=
+  [([mkI "alloca" [OLit 64] [1%N] false false 1 []; mkI "alloca" [OLit 64] [2%N] false false 2 [];
+    mkI "mstore" [OLit 5; OVar 1%N] [] true false 0 [];
+    mkI "mcopy" [OLit 64; OVar 1%N; OVar 2%N] [] true false 0 []] ++ mid ++
+   [mkI "invoke" [OLab 1000000%N; arg] [3%N] true true 0 ann;
+    mkI "stop" [] [] false false 0 []])%list].
+Definition inv_ann := [None; Some (OLit 64)].
+Example ex_invoke_accepted : check_func ex_C [[]] (inv_f inv_ann [] (OVar 2%N)) (inv_f inv_ann [] (OVar 1%N)) = true.
+Proof. vm_compute. reflexivity. Qed.
+Example ex_invoke_clobbered :
+  let mid := [mkI "mstore" [OLit 6; OVar 1%N] [] true false 0 []] in
+  check_func ex_C [[]] (inv_f inv_ann mid (OVar 2%N)) (inv_f inv_ann mid (OVar 1%N)) = false.
+Proof. vm_compute. reflexivity. Qed.
+Example ex_invoke_not_readonly : check_func ex_C [[]] (inv_f [None; None] [] (OVar 2%N)) (inv_f [None; None] [] (OVar 1%N)) = false.
+Proof. vm_compute. reflexivity. Qed.
